@@ -38,6 +38,9 @@ Events (JSON lists)
 ``['run', i, [targets]]``   run request for algorithm i (``organize`` as ``cmd_run`` does; [] = no targets)
 ``['timer', i]``            periodic event for algorithm i fires (``schedule.defer`` with a boot moment)
 ``['tick']``                one ``farm.dispatch()``
+``['tick-dbfault']``        one ``farm.dispatch()`` during which the data base is down: every ``dawgie.db.next()``
+                            raises (fault injection; offered only when EventCfg.db_faults allows it and a job
+                            may ask for a run id; the step record carries ``db_fault_hits``)
 ``['noop']``                nothing happens (lets an oracle look at the state right after the load)
 ``['expect-idle']``         nothing happens; marks the end of a history that was run to quiescence (workers
                             always answered, no further external event) so the oracle can check the end state
@@ -123,8 +126,15 @@ def _fake_targets():
     return list(_CUR[0].targets) if _CUR[0] is not None else []
 
 
+class SimulatedDbFailure(RuntimeError):
+    pass
+
+
 def _fake_next():
     sim = _CUR[0]
+    if sim.db_fault:
+        sim.db_fault_hits += 1
+        raise SimulatedDbFailure('simulated data base failure in db.next()')
     sim.runid_counter += 1
     return sim.runid_counter
 
@@ -614,6 +624,7 @@ class EventCfg:
         run_empty=False,
         timers=False,
         outcomes=('S', 'Sp', 'Sq', 'Spq', 'F', 'I'),
+        db_faults=0,
     ):
         self.run_targets = [list(t) for t in run_targets]
         self.run_nodes = run_nodes
@@ -621,6 +632,7 @@ class EventCfg:
         self.run_empty = run_empty
         self.timers = timers
         self.outcomes = list(outcomes)
+        self.db_faults = int(db_faults)  # faulty dispatch ticks offered per history
 
 
 class Sim:
@@ -641,6 +653,9 @@ class Sim:
         self.incarnation = 0
         self.chron_dirty = False
         self.steps = 0
+        self.db_fault = False
+        self.db_fault_hits = 0
+        self.faults_used = 0
         self.reset()
 
     # ---- life cycle -------------------------------------------------------------------------------------
@@ -676,6 +691,9 @@ class Sim:
         self.runid_counter = 0
         self.incarnation = 0
         self.running = []
+        self.db_fault = False
+        self.db_fault_hits = 0
+        self.faults_used = 0
         latest = [{self.spec.tags[i]: '1.0.0' for i in self.u.init}, {}, {}]
         S.build(self.facs, latest, [{}, {}, {}, {}])
         self.nodes = {}
@@ -812,6 +830,7 @@ class Sim:
             tuple(sorted(F._busy)),
             tuple(sorted((m.jobid, m.target or ALL, rank[m.runid]) for m in self.running)),
             len(F._workers),
+            self.faults_used,
         )
 
     # ---- snapshot / restore -----------------------------------------------------------------------------
@@ -844,6 +863,7 @@ class Sim:
             'running': list(self.running),
             'runid_counter': self.runid_counter,
             'incarnation': self.incarnation,
+            'faults_used': self.faults_used,
         }
 
     def restore(self, s):
@@ -885,6 +905,8 @@ class Sim:
         self.running = list(s['running'])
         self.runid_counter = s['runid_counter']
         self.incarnation = s['incarnation']
+        self.faults_used = s.get('faults_used', 0)
+        self.db_fault = False
         if self.chron_dirty:
             self._wipe_chron()
 
@@ -906,6 +928,10 @@ class Sim:
             if cfg.timers:
                 evs.append(['timer', i])
         evs.append(['tick'])
+        if self.faults_used < cfg.db_faults and (
+            F._jobs or any(n.get('todo') for n in self.nodes.values())
+        ):
+            evs.append(['tick-dbfault'])
         seen = collections.Counter()
         for m in sorted(self.running, key=lambda m: (m.jobid, m.target or ALL, m.runid)):
             u = unit_of(m)
@@ -938,6 +964,15 @@ class Sim:
                 self._timer(ev[1])
             elif kind == 'tick':
                 self._tick(rec)
+            elif kind == 'tick-dbfault':
+                self.faults_used += 1
+                self.db_fault_hits = 0
+                self.db_fault = True
+                try:
+                    self._tick(rec)
+                finally:
+                    self.db_fault = False
+                    rec['db_fault_hits'] = self.db_fault_hits
             elif kind == 'reply':
                 self._reply(ev, rec)
             elif kind in ('noop', 'expect-idle'):
